@@ -169,6 +169,8 @@ def analyse(ctx, case, run, S):
 
 def run(ctx):
     parallel_cases(ctx, cases(ctx.tier), analyse, workers=10)
+    import mirx_props
+    mirx_props.c03_chunk_loop(ctx)
     bounds = {'batch sizes': 'k in {1,2,3,5,257} quick; {255,256,257,300,511,512,513} thorough (k is enumerated: chunking is integer control flow)',
               'within': 'contents of every member symbolic; all orders for k<=3; positions of the invalid / disagreeing member enumerated'}
     outside = ['k > 513', 'members with n*m > 64 inside large batches']
